@@ -2,7 +2,8 @@
 
 The real `Module.__pollThread` body runs as the single managed poll thread of a `vlib.sched.Scheduler` (virtual clock,
 1 tick = 2^-10 s, one tick per clock read) over 1..4 generated modules (optionally behind a shared io module), with
-scripted durations/failures of `doPoll` / `read_*` / `initialReads`, and an 'actor' thread changing intervals, switching
+scripted durations/failures of `doPoll` / `read_*` / `initialReads` / the start-up writes (in the start-up round and in
+the `writeInitParams` calls behind it), and an 'actor' thread changing intervals, switching
 fast polling, triggering and simulating reconnects.  A 'stopper' thread aborts the run at the virtual deadline.
 
 Recorded per run: every call the poll thread makes (start, module, function, duration), what the environment did
@@ -25,7 +26,9 @@ MAX_CALLS = 40000        # a run is also ended (like at the virtual deadline) af
 META = {
     'level_text': 'Theorems over the Lean model of the poll thread body (Timed/Poller.lean) and of the poll flag computation '
                   '(Timed/PollFlags.lean), all proved in full: errors_contained (successor state and call list of a turn independent '
-                  'of every outcome, every environment), nopoll_never_read (the monitor clause NoPollNeverRead for every trace of '
+                  'of every outcome, every environment), late_writes_contained / errors_contained_after_round (the writeInitParams '
+                  'calls the repaired thread makes behind its start-up round - one per module, whatever any of them raises - and '
+                  'everything after them are independent of every outcome), nopoll_never_read (the monitor clause NoPollNeverRead for every trace of '
                   'prologue + any number of turns, every environment), poll_flags_mark / polled_is_mayPoll (the flag the thread tests is '
                   'set exactly for parameters not marked as not polled, every kind of declaration), interval_change_triggers / _wakes / '
                   '_next_wakeup / _not_lost / _in_window (every environment, incl. actions between wait and clear), '
@@ -35,7 +38,9 @@ META = {
                   'interval_change_takes_effect (after arbitrary actions of other threads: first start <= max(last_main + new interval, '
                   'moment of change) + sweep, later gaps <= new interval + sweep), slow_refresh_bound(_thread) (clock <= latest refresh + '
                   '1.5*slow + (2N+2)*sweep + 2) and bounds_from_thread_start (both bounds from the state PollInfo.__init__ leaves) for '
-                  'quiet environments with durations <= D and clock steps <= E.  The model is tied to frappy/modulebase.py and '
+                  'quiet environments with durations <= D and clock steps <= E; the bounds count from the start of the loop, i.e. from '
+                  'the end of the late writes (like the writes of the start-up round they are not poll functions and have no bound).  '
+                  'The model is tied to frappy/modulebase.py and '
                   'frappy/rwhandler.py by replaying every recorded environment of the real _Module__pollThread (virtual time, other '
                   'threads acting inside poll functions, inside waits, at the entry of wait and of clear) through the Lean `turn` and '
                   'comparing the call lists, and by comparing the real poll flags with the model; the Lean monitors check the full '
@@ -48,7 +53,8 @@ META = {
                   'outside the model.',
     'trusted': [
         'virtual time: every clock read advances by >= 1 tick; durations are those the fake drivers sleep on the patched clock',
-        'instrumentation: mobj.callPollFunc / writeInitParams / triggerPoll.wait / triggerPoll.clear are wrapped on the instances (the originals run inside)',
+        'instrumentation: mobj.callPollFunc / writeInitParams / triggerPoll.wait / triggerPoll.clear are wrapped on the instances (the originals run inside); '
+        'a writeInitParams call is recorded as the late one (call kind w) when the start-up callback has already been called',
         'the recipe of the generated classes (decls_of: how each read function is declared; enablePoll) as reported to the judge',
         'BaseException (SystemExit, KeyboardInterrupt) is deliberately not contained by callPollFunc and is outside the statement',
     ],
